@@ -22,6 +22,8 @@ pub enum E<F> {
     AddVar(Box<E<F>>, usize),
     /// lc - constant (the `Into<LinearCombination>` path for a field element)
     SubConst(Box<E<F>>, F),
+    /// the combination without any term (`LinearCombination::default()`, an empty accumulator)
+    Empty,
 }
 
 pub fn show<F: core::fmt::Debug>(e: &E<F>) -> String {
@@ -39,6 +41,7 @@ pub fn show<F: core::fmt::Debug>(e: &E<F>) -> String {
         E::VarNeg(i) => format!("-x{}", i),
         E::AddVar(a, i) => format!("({} + x{})", show(a), i),
         E::SubConst(a, _) => format!("({} - k)", show(a)),
+        E::Empty => "empty".into(),
     }
 }
 
@@ -66,6 +69,7 @@ pub fn build<F: PrimeField>(e: &E<F>, vars: &[Variable<F>]) -> LinearCombination
         E::VarNeg(i) => -vars[*i],
         E::AddVar(a, i) => build(a, vars) + vars[*i],
         E::SubConst(a, c) => build(a, vars) - *c,
+        E::Empty => LinearCombination::default(),
     }
 }
 
@@ -85,6 +89,7 @@ pub fn eval<F: PrimeField>(e: &E<F>, vals: &[F]) -> F {
         E::VarNeg(i) => -vals[*i],
         E::AddVar(a, i) => eval(a, vals) + vals[*i],
         E::SubConst(a, c) => eval(a, vals) - *c,
+        E::Empty => F::zero(),
     }
 }
 
@@ -121,6 +126,7 @@ pub fn flatten<F: PrimeField>(e: &E<F>, nvars: usize) -> (Vec<F>, F) {
             v.1 -= c;
             v
         }
+        E::Empty => z(),
     }
 }
 
@@ -170,7 +176,16 @@ pub fn random_tree<F: PrimeField>(rng: &mut rand_chacha::ChaChaRng, nvars: usize
         };
     }
     let sub = |rng: &mut rand_chacha::ChaChaRng, coef: &mut dyn FnMut(&mut rand_chacha::ChaChaRng) -> F| Box::new(random_tree(rng, nvars, depth - 1, coef));
-    match rng.gen_range(0..11) {
+    match rng.gen_range(0..13) {
+        // an empty accumulator as the left operand of - and of +, and as the right operand of -
+        11 => {
+            if rng.gen_bool(0.6) {
+                E::Sub(Box::new(E::Empty), sub(rng, coef))
+            } else {
+                E::Add(Box::new(E::Empty), sub(rng, coef))
+            }
+        }
+        12 => E::Sub(sub(rng, coef), Box::new(E::Empty)),
         0 => E::Add(sub(rng, coef), sub(rng, coef)),
         1 => E::Sub(sub(rng, coef), sub(rng, coef)),
         2 => E::Neg(sub(rng, coef)),
